@@ -63,6 +63,16 @@ class P:
             for rep in range(2 if tier == "quick" else 20):
                 items.append(("H:61:rs(%s) H:900:rs(%s) %s || %s ~40/EXEC:1:%s ~60/EXEC:2:%s" % (hx("h61"), hx("h900"), reg9, regn, use, use),
                               ("rereg-window", kind, 3)))
+        # a registration arriving WHILE an evaluation is inside a handler, below other operators: the handler takes 120 ms
+        # (scripted delay), the registration is issued 40 ms after the evaluation starts; whatever lock the evaluator holds
+        # around operand evaluation or handler calls shows up as a deadlock or a stale result
+        slowprogs = ["slow() + (1 + 2) * 3", "(1 + 2) * slow() - 4 / 2", "- slow() + (- 1)", "slow() ++ + 1 ++", "min(slow(), max(1, 2)) + sum(1, 2)",
+                     "x = slow() + (2 * 3); x", "[slow() + 1, 2 * 3]", "slow() > 0 ? 1 + 2 : 3 * 4"]
+        regs4 = ["REGI:%s:6f:0:0:61" % hx("zzi"), "REGP:%s:61" % hx("zzp"), "REGS:%s:61" % hx("zzs"), "REGF:%s:61" % hx("zzf")]
+        for prog in (slowprogs if tier != "quick" else rng.sample(slowprogs, 4)):
+            for reg in regs4:
+                items.append(("H:61:rs(%s) H:70:qZ120.rn(0,1,0) CF:1:%s:70 PARSE:%s || EXEC:1:%s ~40/%s" % (hx("h61"), hx("slow"), hx("1"), hx(prog), reg),
+                              ("reg-inside-handler", reg.split(":")[0], 4)))
         return flow.mk_cases("conc", items)
 
     def run_model(self, lines):
